@@ -23,6 +23,11 @@ def key_family(name, n, rng=None):
         ks = [bytes([i // 256, i % 256]) + bytes(rng.randrange(256) for _ in range(rng.randrange(100, 400))) for i in range(n)]
     elif name == "len128":       # key lengths around the one-byte varint boundary
         ks = [bytes([i // 256, i % 256]) + b"k" * (124 + (i % 4)) for i in range(n)]
+    elif name == "longcomp":     # long, highly compressible keys (a compressed index stores them far shorter than they are)
+        ks = [bytes([98 + (i // 256) % 20]) * (300 + 37 * (i % 9)) + bytes([i // 256, i % 256]) for i in range(n)]
+        ks = sorted(ks)
+    elif name == "medcomp":      # a distinct prefix followed by a compressible run (the compressed index record is somewhat shorter than the entry)
+        ks = [b"key-%05d-" % i + b"k" * 120 for i in range(n)]
     elif name == "biglast":      # last key of several KiB dominating the index
         ks = [(i + 1).to_bytes(4, "big") for i in range(n - 1)] + [b"\xff" * 6000]
     else:
